@@ -87,6 +87,24 @@ def run(cx):
             inst.violation(e.path, "fragment order", "the fragments of a packet are not appended to pending_queue in ascending fragment id")
     from props.C01 import inst_receive_walk
     inst_receive_walk(cx, "C05.c")
+    # TimeSensitive packets are "delivered at their place or dropped by the sender, nothing else":
+    # the only sender-side drop is the stale-TimeSensitive one (shared with C12.b)
+    from props.C12 import drop_guard
+    drop_guard(cx, "C05.d")
+    with cx.instance("C05.e", "T3 WHO-MAY", "the send queue loses packets only through the stale-TimeSensitive drop and the move into the send window", floor=2) as inst:
+        b = R.body("PacketSender::emit_packet")
+        pops = call_sites(b, "VecDeque::pop_front", r"arg1\.packet_send_queue")
+        for loc, lab in pops:
+            inst.site(b, loc, lab)
+        if len(pops) != 2:
+            inst.violation(b.path, "pop_front count", "emit_packet pops the send queue at %d sites; expected the stale drop and the emission" % len(pops))
+        for ob in R.all_bodies():
+            if ob.path != b.path and ob.path.startswith("half_connection::") and call_sites(ob, "VecDeque::pop_front", r"\.packet_send_queue"):
+                inst.violation(ob.path, "pop_front(packet_send_queue)", "packets are removed from the send queue outside emit_packet")
+            for l, t in ob.calls():
+                sn = R.short(t.get("fn") or "")
+                if sn in ("VecDeque::clear", "VecDeque::drain", "VecDeque::truncate", "VecDeque::retain", "VecDeque::pop_back") and t["args"] and re.search(r"packet_send_queue|pending_queue", show(ob.operand_expr(t["args"][0]))):
+                    inst.violation(ob.path, sn, "`%s` discards queued packets/fragments" % sn, at=ob.span_at(l))
 
 
 SELFTEST = [
